@@ -15,6 +15,7 @@ import (
 	"bufio"
 	"encoding/json"
 	"fmt"
+	"io"
 	"os"
 	"os/exec"
 	"path/filepath"
@@ -26,6 +27,7 @@ import (
 	"github.com/AliceO2Group/Control/core/task/constraint"
 	"github.com/AliceO2Group/Control/core/task/taskclass/port"
 	mesos "github.com/mesos/mesos-go/api/v1/lib"
+	"github.com/sirupsen/logrus"
 
 	"verif/harness/internal/gen"
 )
@@ -74,12 +76,22 @@ type agentSpec struct {
 
 // simSpec is one case that needs the in-process core.
 type simSpec struct {
-	Mode    string            `json:"mode"` // round | desc | nodesc
-	Wf      string            `json:"wf"`
-	Yaml    string            `json:"yaml"`
-	Classes map[string]string `json:"classes"`
-	Tasks   []taskSpec        `json:"tasks"`
-	Agents  []agentSpec       `json:"agents,omitempty"`
+	Mode   string      `json:"mode"` // round | desc | nodesc
+	Tree   *node       `json:"tree"`
+	Agents []agentSpec `json:"agents,omitempty"`
+	// derived from Tree by renameSpec (names unique in the run); not part of the replay input
+	Wf      string            `json:"wf,omitempty"`
+	Yaml    string            `json:"yaml,omitempty"`
+	Classes map[string]string `json:"classes,omitempty"`
+	Tasks   []taskSpec        `json:"tasks,omitempty"`
+}
+
+// simIn is what identifies a sim case (replay input, distinctness hash)
+type simIn struct {
+	Mode   string      `json:"mode"`
+	Tree   *node       `json:"tree"`
+	Agents []agentSpec `json:"agents,omitempty"`
+	Role   string      `json:"role,omitempty"` // desc cases: the task role this case is about
 }
 
 // what the child reports for one spec
@@ -114,6 +126,8 @@ type simObs struct {
 	Accepts  [][]obsTask  `json:"accepts,omitempty"` // per agent index; nil entry = no ACCEPT for that offer
 	Accepted []bool       `json:"accepted,omitempty"`
 	Declined []int        `json:"declined,omitempty"`
+	Undeployed   []int    `json:"undeployed"`
+	Undeployable []int    `json:"undeployable"`
 	ExecCpu  int64        `json:"execCpu"`
 	ExecMem  int64        `json:"execMem"`
 	Extra    []string     `json:"extra,omitempty"` // anything unexpected (calls for unknown offers, ...)
@@ -387,12 +401,11 @@ func caseResSat(in pureIn) gen.Case {
 
 // ---------------------------------------------------------------- layer 2: cases from child observations
 
-func caseFromSim(sp simSpec, ob simObs) []gen.Case {
+func caseFromSim(sp simSpec, in simIn, ob simObs) []gen.Case {
 	byRole := map[string]taskSpec{}
 	for _, t := range sp.Tasks {
 		byRole[t.Role] = t
 	}
-	in := sp
 	if ob.Err != "" {
 		// the workflow could not be loaded / the round could not be run: a harness problem, made
 		// visible as a case that cannot match
@@ -407,8 +420,8 @@ func caseFromSim(sp simSpec, ob simObs) []gen.Case {
 			if d.HasW {
 				w = fmt.Sprintf("(Some (%d, %d, %s, %s))", d.WCpu, d.WMem, rangesTerm(d.WStat), chansTerm(d.WCh))
 			}
-			one := sp
-			one.Tasks = []taskSpec{t}
+			one := in
+			one.Role = d.Role
 			out = append(out, gen.Case{Term: fmt.Sprintf("CDesc %s %s %s %s", rawDescTerm(t), cstsTerm(d.RoleC), cstsTerm(d.Merged), w),
 				Kind: "desc", Input: one, Obs: d})
 		}
@@ -458,7 +471,17 @@ func caseFromSim(sp simSpec, ob simObs) []gen.Case {
 			for i, d := range ob.Declined {
 				dec[i] = fmt.Sprintf("%d", d)
 			}
-			obs = fmt.Sprintf("(RDone %s %s)", gen.List(acc), gen.List(dec))
+			ints := func(l []int) string {
+				x := make([]string, len(l))
+				for i, d := range l {
+					x[i] = fmt.Sprintf("%d", d)
+				}
+				return gen.List(x)
+			}
+			if sp.Mode == "nodesc" {
+				ob.Undeployed, ob.Undeployable = nil, nil
+			}
+			obs = fmt.Sprintf("(RDone %s %s %s %s)", gen.List(acc), gen.List(dec), ints(ob.Undeployed), ints(ob.Undeployable))
 		}
 		kind := sp.Mode
 		return []gen.Case{{Term: fmt.Sprintf("CRound %s %s %d %d %s", gen.List(offers), gen.List(descs), ob.ExecCpu, ob.ExecMem, obs),
@@ -473,6 +496,7 @@ func runSim(specs []simSpec, workRoot string) ([]simObs, error) {
 	const batch = 40
 	next := 0
 	childNo := 0
+	retried := false
 	for next < len(specs) {
 		hi := next + batch
 		if hi > len(specs) {
@@ -532,23 +556,30 @@ func runSim(specs []simSpec, workRoot string) ([]simObs, error) {
 			}
 			f.Close()
 		}
-		if werr == nil && got == hi-next {
+		if got == hi-next {
+			// everything reported (a non-zero exit after the last result does not matter)
 			next = hi
+			retried = false
 			os.RemoveAll(dir)
 			continue
 		}
 		// the child died while working on spec next+got
-		if next+got >= hi {
-			return nil, fmt.Errorf("child %d failed after finishing its batch: %v\n%s", childNo, werr, tail(stderr.String(), 2000))
-		}
 		st := stderr.String()
 		o := simObs{Crash: true, CrashMsg: crashClass(st)}
 		if pending != nil {
 			o.Order, o.ExecCpu, o.ExecMem, o.Descs = pending.Order, pending.ExecCpu, pending.ExecMem, pending.Descs
 		} else {
-			// died before the round was even set up: not a placement crash
-			return nil, fmt.Errorf("child %d died outside a round (spec %d): %v\n%s", childNo, next+got, werr, tail(st, 3000))
+			// died before a round was started: not a placement crash.  Keep the evidence, retry once.
+			logf := filepath.Join(workRoot, fmt.Sprintf("child_failure_%d.log", time.Now().UnixNano()))
+			os.WriteFile(logf, []byte(fmt.Sprintf("child %d, specs %d..%d, %d results, wait error %v\n%s", childNo, next, hi, got, werr, st)), 0o644)
+			if !retried {
+				retried = true
+				next = next + got
+				continue
+			}
+			return nil, fmt.Errorf("child %d died outside a round (spec %d): %v (log %s)\n%s", childNo, next+got, werr, logf, tail(st, 3000))
 		}
+		retried = false
 		out[next+got] = o
 		next = next + got + 1
 		os.RemoveAll(dir)
@@ -603,6 +634,7 @@ func main() {
 		return
 	}
 	o := gen.ParseFlags()
+	logrus.SetOutput(io.Discard) // the pure functions log every unsatisfied constraint
 	build := os.Getenv("VERIF_BUILD")
 	if build == "" {
 		build = "/verif/build"
@@ -678,8 +710,15 @@ func main() {
 			specs = append(specs, *it.sim)
 		}
 	}
-	// workflow and class names must be unique across one child batch: rename by position
+	// replay inputs are taken before renaming; workflow and class names must be unique across
+	// one run: rename by position
+	ins := make([]simIn, len(specs))
 	for i := range specs {
+		var cp simIn
+		b, _ := json.Marshal(simIn{Mode: specs[i].Mode, Tree: specs[i].Tree, Agents: specs[i].Agents})
+		json.Unmarshal(b, &cp)
+		blankNames(cp.Tree)
+		ins[i] = cp
 		renameSpec(&specs[i], i)
 	}
 	obs, err := runSim(specs, workRoot)
@@ -709,11 +748,11 @@ func main() {
 		if obs[si].Crash {
 			crashes++
 		}
-		cases = append(cases, caseFromSim(specs[si], obs[si])...)
+		cases = append(cases, caseFromSim(specs[si], ins[si], obs[si])...)
 		si++
 	}
 	extra := map[string]any{"sim_specs": len(specs), "core_crashes_observed": crashes}
-	if err := gen.WriteCases(o, "C05", "From Verif Require Import Placement.", "c05_case", "report05", cases, extra); err != nil {
+	if err := gen.WriteCases(o, "C05", "From Verif Require Import Common Placement.", "c05_case", "report05", cases, extra); err != nil {
 		panic(err)
 	}
 }
